@@ -70,6 +70,7 @@ def parseReq (sw : Nat) (tok : String) : Request :=
     if c = "-" then none
     else if c = "t" then some fun _ _ => true
     else if c = "f" then some fun _ _ => false
+    else if c = "x" then some fun _ d => !(Path.parse d == Path.parse glyphsDir)
     else if c.startsWith "n" then some fun n _ => n == unhexD (body c)
     else some fun _ d => Path.parse d == Path.parse (unhexD (body c))
   { lib := sw % 2 = 1, groups := sw / 2 % 2 = 1, kerning := sw / 4 % 2 = 1, features := sw / 8 % 2 = 1,
